@@ -193,9 +193,14 @@ CLAIMED = {
               "Model.get = filter of the enumerated table by 'every condition holds', projected on the requested attributes in the requested order, flattened for one attribute (get_eq_filter, get_eq_spec, selected_exact, "
               "get_nodup, get_in_input_order, get_columns_in_requested_order); rowID is the position as attribute and as condition (rowID_means_position, rowID_as_condition); unknown attribute/condition names are rejected "
               "(unknown_column_rejected, unknown_key_rejected); get_residues/get_chains (get_residues_eq, get_chains_eq). Correspondence: tables of 0-40 rows from a small value pool, every subset of a condition pool up to "
-              "size 4 (bounded-exhaustive) + random conjunctions over every attribute type, scalars/lists, present/absent values, string forms of numbers, negations, every ordered column list up to 4 and '*'."),
-        note=BASE_NOTE + "SQLite's comparison/storage affinity = Model.sqlEq/storeVal is sampled, not proved; duplicate/case-variant column spellings are outside the quantifier (model-only).",
-        technique='Lean 4 refinement proof (modelled get = row-by-row spec for all tables and conjunctions) + bounded-exhaustive differential correspondence',
+              "size 4 (bounded-exhaustive) + random conjunctions over every attribute type, scalars/lists, present/absent values, string forms of numbers, negations, every ordered column list up to 4 and '*'. "
+              "SQL TEXT TIE (Props/C03K.lean, Gen/Sql.lean regenerated every run by py/translate_ext_sql.py, Model/MicroSql.lean): the statements of get / _format_get_output that build the query text and the bound values are "
+              "TRANSLATED; MicroSql is a tokenizer + parser + evaluator for exactly the statement grammar the library emits (the SQLite contract). Theorems: closed forms of the translated units (get_cond_nf, get_query_nf, "
+              "format_get_output_nf), the emitted text parses to SELECT cols FROM t WHERE exactly the keyword conditions (parse_selectText), and Model.get = translated builder -> MicroSql -> translated _format_get_output for every "
+              "database, column string and keyword list on the non-chunked path, error branches included (get_eq_sql, getF_eq_sql): the hand model is now a CONSEQUENCE of the source's text plus the contract. Correspondence for the "
+              "tie: the SQL text and bound values the real code sends to SQLite (recorded by a proxy around db.c) = the translated builder's, and MicroSql = sqlite3 on every recorded statement."),
+        note=BASE_NOTE + "SQLite's comparison/storage affinity = Model.sqlEq/storeVal and the meaning of the emitted statements = MicroSql are contracts, sampled against sqlite3 on every recorded statement, not proved; column/key validation and per-model dispatch stay hand-modelled; duplicate/case-variant column spellings are outside the quantifier (model-only).",
+        technique='Lean 4 refinement proof (translated SQL text + MicroSql contract = modelled get = row-by-row spec for all tables and conjunctions) + bounded-exhaustive differential correspondence',
         design_ref='DESIGN.md 5/C03, 12'),
     'C04': dict(
         category='proof',
@@ -204,7 +209,10 @@ CLAIMED = {
               "value row of the wrong length incl. ragged rows, a row count different from the selection - leaves the state unchanged (update_shape_error); for ALL histories tables, names, row counts and order are kept and "
               "every cell not addressed by some step is unchanged (frame, update_frame_step - induction over the operation list); add_column_spec, stored_equal_in_value; chain relabelling equals the rank-of-sorted-IDs spec and "
               "touches nothing else (fix_chainID_spec, fix_chainID_frame). Correspondence: histories of 1-12 operations with get('*') and get_colnames() after every step; value carriers list / tuple / float64, float32, int64, "
-              "int32 arrays / NumPy scalars / str arrays (read back equal in value); mismatching shapes compared before/after."),
+              "int32 arrays / NumPy scalars / str arrays (read back equal in value; decimal values such as 1.1 that differ between float32 and float64); later steps reuse the selection keywords of earlier ones (stale selections); "
+              "mismatching shapes compared before/after. SQL TEXT TIE (Props/C04K.lean): the UPDATE / ALTER statement texts and the data rows of update, update_column, add_column and _to_sql_value are TRANSLATED on every run "
+              "(Gen/Sql.lean) and run by MicroSql (the SQLite contract for the emitted grammar): update_eq_sql, updateColumn_eq_sql, addColumn_eq_sql state that the hand model's step IS the translated text executed by MicroSql, "
+              "prepare and per-row errors included; the texts/rows the real code sends (recorded) are compared with the translated builders', and MicroSql's state with the state sqlite3 leaves."),
         note=BASE_NOTE + "Carrier independence is a harness dimension (sqlite3 binding of each carrier is sampled); update_column follows zip semantics (accepted behaviour, relied upon by the repository's own tests); updating the rowID column is outside the quantifier.",
         technique='Lean 4 proof over all histories (frame invariant by induction) of a list-of-records model + differential correspondence on operation sequences',
         design_ref='DESIGN.md 5/C04, 12'),
@@ -214,7 +222,9 @@ CLAIMED = {
               "with or without duplicates, on any table of a multi-table database and for multi-model files, Model.get = the Spec answer, or the documented tooManyVars error exactly when the conditions together exceed the "
               "limit (get_any_length, get_any_length_rows); the chunking lemma - union (intersection for negated) of per-chunk selections = selection of the whole list (chunking); the addressed table is respected "
               "(table_name_respected); update_any_length; limits_are_950_999 pins the translated constants. Correspondence: 1-3 structures up to 4000 atoms, lengths {0,1,2,949,950,951,998,999,1000,1899,1900,1901,2851}+random, "
-              "positive/negated, duplicates within/across chunks, ascending/descending/shuffled, alone and combined (incl. the combined-limit error), every table name, get/update/get_all, under a lowered recursion limit."),
+              "positive/negated, duplicates within/across chunks, ascending/descending/shuffled, alone and combined (incl. the combined-limit error), every table name, get/update/get_all, under a lowered recursion limit. "
+              "SQL TEXT TIE (Props/C17K.lean): one turn of the chunked path's final loop is translated; rows_step_eq_model (its statement means the listed rows in table order), chunks_getElem, fetchRows_turn, chunked_iff (the "
+              "translated loop takes the chunked branch exactly when the model finds an over-long list); the complete statement sequence of chunked calls is compared with the recorded one."),
         note=BASE_NOTE + "SQLite's variable limit itself is not exercised (the library's own 950/999 limits are).",
         technique='Lean 4 proof for all list lengths (chunking lemma, fuel sufficiency) + differential correspondence at and around the limits',
         design_ref='DESIGN.md 5/C17, 12'),
